@@ -4,7 +4,7 @@ from __future__ import annotations
 import ast
 from typing import Any
 
-from ..astutil import bool_atoms, call_name, cfg_of, error_names, norm, returns_error, short, stmt_calls, where
+from ..astutil import Locals, bool_atoms, call_name, cfg_of, error_names, norm, returns_error, short, stmt_calls, where
 from ..cfg import CFG
 from ..core import Report
 
@@ -50,8 +50,18 @@ def run(rep: Report, ctx: Any) -> str:
     rep.check(not after, "R20.1", "response_from_data::no-later-reference-test", "code after the resolution still distinguishes references",
               where(rfd, rfd.node))
     ap = ix.func("Endpoint.add_parameters")
-    t = norm(ap.node)
-    rep.check("param_or_error = parameter_from_reference(param=param, parameters=parameters)" in t and "param = param_or_error" in t, "R20.1",
+    # the resolved parameter (any spelling) is tested for being an error and then rebound to the loop variable itself, so that the
+    # code below the resolution is shared by inline and referenced parameters
+    ploops = [n for n in ast.walk(ap.node) if isinstance(n, ast.For) and norm(n.iter) == "data.parameters"]
+    rep.require(ploops, "loop over data.parameters")
+    pv = norm(ploops[0].target)
+    al = Locals(ap.node)
+    resolved = set(al.bound_from(lambda v: v == f"parameter_from_reference(param={pv}, parameters=parameters)", "assign"))
+    rebind = [s_ for s_ in ploops[0].body if isinstance(s_, ast.Assign) and norm(s_.targets[0]) == pv and norm(s_.value) in resolved]
+    errchk = [s_ for s_ in ploops[0].body if isinstance(s_, ast.If) and any(norm(s_.test) == f"isinstance({r_}, ParseError)" for r_ in resolved)
+              and any(isinstance(x, ast.Return) for x in s_.body)]
+    direct = [s_ for s_ in ploops[0].body if isinstance(s_, ast.Assign) and norm(s_.targets[0]) == pv and norm(s_.value).startswith("parameter_from_reference(")]
+    rep.check((bool(rebind) and bool(errchk) and ploops[0].body.index(errchk[0]) < ploops[0].body.index(rebind[0])) or bool(direct), "R20.1",
               "Endpoint.add_parameters::resolves-then-rebinds", "a referenced parameter is not rebound to the loop variable before the shared code",
               where(ap, ap.node))
     rr = ix.func("bodies._resolve_reference")
@@ -73,7 +83,9 @@ def run(rep: Report, ctx: Any) -> str:
               f"the chain loop tests {stale}, which the loop never updates: only the first link is ever examined (longer chains are misreported)",
               where(rr, lp), lhs=norm(lp.test), rhs=f"all of {sorted(links)} updated in the body ({sorted(assigned_in_loop)})")
     bfd = ix.func("bodies.body_from_data")
-    rep.check("body = _resolve_reference(data.request_body, request_bodies)" in norm(bfd.node), "R20.1", "body_from_data::resolves-first",
+    res_l = set(Locals(bfd.node).bound_from(lambda v: v == "_resolve_reference(data.request_body, request_bodies)", "assign"))
+    raw_reads = [n for n in ast.walk(bfd.node) if isinstance(n, ast.Attribute) and norm(n) == "data.request_body"]
+    rep.check(bool(res_l) and len(raw_reads) == 1, "R20.1", "body_from_data::resolves-first",
               "the request body is not resolved before the shared code", where(bfd, bfd.node))
 
     # ---- R20.2 ----------------------------------------------------------------------------------------------------------
@@ -88,7 +100,7 @@ def run(rep: Report, ctx: Any) -> str:
     pfields = set(ix.all_fields(pcls))
     for f in (ap, ix.func("PropertyProtocol.validate_location")):
         for n in ast.walk(f.node):
-            if isinstance(n, ast.Attribute) and isinstance(n.value, ast.Name) and n.value.id == "param" and n.attr in pfields:
+            if isinstance(n, ast.Attribute) and isinstance(n.value, ast.Name) and n.value.id == pv and f is ap and n.attr in pfields:
                 read.add(n.attr)
     rep.check(read <= copied, "R20.2", "parameter_from_data::copies-what-is-read",
               f"attributes {sorted(read - copied)} of a parameter are read by add_parameters but not copied for component parameters", where(pfd, pfd.node),
@@ -99,7 +111,10 @@ def run(rep: Report, ctx: Any) -> str:
     prp = ix.func("schemas.parse_reference_path")
     tests = [n for n in ast.walk(prp.node) if isinstance(n, ast.If) and any(returns_error(r, set()) for r in n.body if isinstance(r, ast.stmt))]
     rep.require(tests, "rejection test in parse_reference_path")
-    atoms = set(bool_atoms(tests[0].test))
+    pl = Locals(prp.node)
+    parsed = pl.one(lambda v: v.startswith("urlparse("), "assign")
+    rep.require(parsed, "urlparse(...) result in parse_reference_path")
+    atoms = {a.replace(f"{parsed}.", "parsed.") if a.startswith(f"{parsed}.") else a for a in bool_atoms(tests[0].test)}
     need = {"parsed.scheme", "parsed.path"}
     rep.check(need <= atoms and isinstance(tests[0].test, ast.BoolOp) and isinstance(tests[0].test.op, ast.Or), "R20.3",
               "parse_reference_path::rejects-scheme-and-path",
@@ -109,7 +124,7 @@ def run(rep: Report, ctx: Any) -> str:
     rep.check(full <= atoms, "R20.3", "parse_reference_path::rejects-every-non-fragment-component",
               f"references with only a {sorted(full - atoms - need)} component (e.g. `//host#/components/schemas/X`, `?q#/components/schemas/X`) "
               "are accepted and bound to the local component", where(prp, tests[0]), lhs=sorted(atoms), rhs=sorted(full))
-    rep.check(any(isinstance(r, ast.Return) and "parsed.fragment" in norm(r) for r in ast.walk(prp.node)), "R20.3",
+    rep.check(any(isinstance(r, ast.Return) and f"{parsed}.fragment" in norm(r) for r in ast.walk(prp.node)), "R20.3",
               "parse_reference_path::returns-fragment", "the validated path is not the fragment", where(prp, prp.node))
     # every `.ref` read in the parser goes through the validator (or the body chain, or is diagnostic text)
     n_ref = 0
@@ -133,14 +148,15 @@ def run(rep: Report, ctx: Any) -> str:
                           lhs=norm(par)[:60] if par is not None else None, rhs="parse_reference_path(...)")
     rep.floor("reference_reads", n_ref, 8)
     # lookup misses return errors
-    for fname, key in (("properties._property_from_ref", "classes_by_reference.get(ref_path)"), ("schemas.parameter_from_reference", "classes_by_reference.get(ref_path"),
+    for fname, key in (("properties._property_from_ref", "classes_by_reference.get("), ("schemas.parameter_from_reference", "classes_by_reference.get("),
                        ("responses.response_from_data", "responses.get(")):
         f = ix.func(fname)
         cfg = cfg_of(f, cfgs)
         errs = error_names(f.node)
-        gets = [s for s in cfg.stmts() if key in norm(s)]
-        ok = bool(gets) and any(isinstance(s, ast.If) and ("not " in norm(s.test) or "is None" in norm(s.test)) and
-                                any(returns_error(r, errs) for r in ast.walk(s) if isinstance(r, ast.stmt)) for s in cfg.stmts())
+        got = set(Locals(f.node).bound_from(lambda v, key=key: key in v, "assign"))
+        # the looked-up value (any spelling) is tested for a miss and the miss returns an error
+        ok = bool(got) and any(isinstance(s, ast.If) and any(norm(s.test) in (f"not {g}", f"{g} is None") for g in got) and
+                               any(returns_error(r, errs) for r in ast.walk(s) if isinstance(r, ast.stmt)) for s in cfg.stmts())
         rep.check(ok, "R20.3", f"{short(f)}::lookup-miss-is-error", "a dangling reference does not produce an error value", where(f, f.node))
 
     # ---- R20.4 ---------------------------------------------------------------------------------------------------------------
@@ -149,7 +165,8 @@ def run(rep: Report, ctx: Any) -> str:
     rep.require(ev, "evolve in _property_from_ref")
     for c in ev:
         kws = {k.arg for k in c.keywords}
-        rep.check(norm(c.args[0]) == "existing" and kws <= {"required", "name", "python_name", "default"}, "R20.4",
+        registered = set(Locals(pfr.node).bound_from(lambda v: v.startswith("schemas.classes_by_reference.get("), "assign"))
+        rep.check(norm(c.args[0]) in registered and kws <= {"required", "name", "python_name", "default"}, "R20.4",
                   "_property_from_ref::evolves-only-use-site-attributes",
                   f"a reference changes {sorted(kws - {'required', 'name', 'python_name', 'default'})} of the registered class: references "
                   "to one schema no longer share one class", where(pfr, c), lhs=sorted(kws), rhs="required, name, python_name, default")
